@@ -82,6 +82,13 @@ def gen_cases(rng, tier):
         for _ in range(2):
             bounded0, trait0 = rng.choice(BOUNDED)(), rng.choice(TRAITS)()
             cases.append(('subst', g.show(a), g.show(b), g.show(g.subst(bounded0, theta)), g.show(g.subst(trait0, theta))))
+        # random bounds over the general header's parameters (every type and expression form of
+        # the fragment, const expressions included), instantiated
+        rb = g.rand_type(rng, rng.randrange(1, 4), 3)
+        rt = g.C(rng.choice(['D', 'm::D']), *([g.rand_type(rng, rng.randrange(1, 3), 3)] if rng.random() < 0.7 else []),
+                 *([g.GConst(g.rand_expr(rng, rng.randrange(1, 3), 3))] if rng.random() < 0.4 else []),
+                 *([g.GAssoc('G', g.rand_type(rng, 1, 3))] if rng.random() < 0.4 else []))
+        cases.append(('subst', g.show(a), g.show(b), g.show(g.subst(rb, theta)), g.show(g.subst(rt, theta))))
         # possibly outside the image: written over the specific header's own parameters
         bps = [p for p in g.params_of(b) if p < 2]
         ren = {0: g.P(bps[0]) if bps else g.C('u8'), 1: g.P(bps[-1]) if bps else g.C('X'), 2: g.Lit('3')}
